@@ -1682,7 +1682,18 @@ class Interp:
             return self.np.elementwise_compare(self, sym, a, b, node)
         if isinstance(a, Expr) and isinstance(b, Expr):
             return self.cmp_expr(a - b, sym)
-        if isinstance(a, Tup) and isinstance(b, Tup) and sym in ("==", "!="):
+        if isinstance(a, Tup) and isinstance(b, Tup) and sym in ("==", "!=") and a.kind != "dict" and b.kind != "dict":
+            if not any(isinstance(x, GenList) for x in a.items + b.items) and all(isinstance(x, Expr) for x in a.items + b.items):
+                if len(a.items) != len(b.items):
+                    return sym == "!="
+                preds = [self.cmp_expr(x - y, "==") for x, y in zip(a.items, b.items)]
+                if any(p is False for p in preds):
+                    return sym == "!="
+                preds = [p for p in preds if p is not True]
+                if not preds:
+                    return sym == "=="
+                eq = preds[0] if len(preds) == 1 else BoolCombo("and", preds)
+                return eq if sym == "==" else BoolCombo("not", [eq])
             return Unknown("tuple comparison")
         return Unknown("comparison of %r and %r" % (a, b))
 
